@@ -12,7 +12,7 @@ import vf
 KNOWN_NULL_OFFSET = {("htp_request.c", 251), ("htp_request.c", 550), ("htp_response.c", 252), ("htp_response.c", 490),
                      ("htp_response.c", 525),
                      # same class, seen while building the response model (receiver_send_data on close / gap with NULL chunk):
-                     ("htp_response.c", 98), ("htp_request.c", 103)}
+                     ("htp_response.c", 98), ("htp_request.c", 96)}
 
 
 def install_sanr():
